@@ -360,7 +360,7 @@ def check(run: Run, tier: str, seed: int):
         torch.manual_seed(scen["torch_seed"])
         run.case(scen, nontrivial=True, sample=scen if i < 1 else None, features={"kind": "own-registry", "op": scen["op"]})
         run_own_registry(run, scen, srng)
-    n = 30 if tier == "quick" else 300
+    n = 60 if tier == "quick" else 300
     steps = 25 if tier == "quick" else 200
     for i in range(n):
         srng = random.Random(f"C18-{seed}-{i}")
